@@ -1,4 +1,4 @@
 SPECIFICATION GenSpec
-CONSTANTS TS <- TS21 W = 2 H = 2 FillMode = TRUE
+CONSTANTS TS <- TS21 W = 4 H = 2 FillMode = TRUE
 INVARIANT EmitBitmap
 CHECK_DEADLOCK FALSE
